@@ -153,6 +153,78 @@ def vocab_exprs(tier):
             yield ("%s.put(0, %s).at(0)" % (r, a), "chain")
 
 
+# ------------------------------------------------------------------------------------------------
+# the same vocabulary with every operand handed over through an untyped function parameter: the compile-time type checks see an
+# opaque value, only the run-time guards stand between the value and the built-in / operator / method
+TABLES = ['tab(1, raw("a"))', 'tab(1, "s")', 'tab(1, tup(1, "a"))', "tab(1, tab(1, 1))", "tab(1, true)", "tab(1, 1.5)", "tab(1, ii)", "tab(2, tab(1, raw(\"b\")))",
+          "tab(0, raw())", 'tup(raw("a"), tab(1, 1))']
+
+
+def opaque_cases(tier):
+    V1 = (V_FULL if tier == "thorough" else V_QUICK) + TABLES
+    V2 = (V_QUICK if tier == "thorough" else V_SMALL) + TABLES
+    V3 = V_SMALL[::2] + TABLES[:4]
+    for b in B1 + ["hex", "raw", "tab", "tup", "str", "num", "int", "bool"]:
+        if b in ("random", "readln", "getsys", "getenv"):
+            continue
+        fn = "function fo(p) return undefined is begin return %s(p); end;" % b
+        for a in (V_SIZE if b == "raw" else V1):        # raw(n) allocates n bytes: sizes are capped (out of the property's domain above)
+            yield fn, "fo(%s)" % a, "o1:" + b
+    for b in B2 + ["hex", "raw", "tab", "tup", "lsubstr", "substr", "subraw"]:
+        if b in ("read", "input"):
+            continue
+        fn = "function fo(p, q) return undefined is begin return %s(p, q); end;" % b
+        for a in V2:
+            for c in (V_SIZE if b in ("raw", "tab") else V2):
+                x, y = (c, a) if b in ("raw", "tab") else (a, c)
+                yield fn, "fo(%s, %s)" % (x, y), "o2:" + b
+    for b in B3:
+        fn = "function fo(p, q, r) return undefined is begin return %s(p, q, r); end;" % b
+        for a in V3:
+            for c in V3:
+                for d in V3:
+                    yield fn, "fo(%s, %s, %s)" % (a, c, d), "o3:" + b
+    for o in BINOPS:
+        fn = "function fo(p, q) return undefined is begin return p %s q; end;" % o
+        for a in V2:
+            for c in V2:
+                yield fn, "fo(%s, %s)" % (a, c), "oop:" + o
+    for o in UNOPS:
+        fn = "function fo(p) return undefined is begin return %s p; end;" % o
+        for a in V1:
+            yield fn, "fo(%s)" % a, "ounop:" + o
+    for m, ar in (("count()", 1), ("at(q)", 2), ("concat(q)", 2), ("delete(q)", 2), ("put(q, r)", 3), ("insert(q, r)", 3), ("set@1(q)", 2), ("set@2(q)", 2)):
+        params = ["p", "q", "r"][:ar]
+        fn = "function fo(%s) return undefined is begin return p.%s; end;" % (", ".join(params), m)
+        if ar == 1:
+            for a in V1:
+                yield fn, "fo(%s)" % a, "om:" + m
+        elif ar == 2:
+            for a in V2:
+                for c in V2:
+                    yield fn, "fo(%s, %s)" % (a, c), "om:" + m
+        else:
+            for a in V2:
+                for c in POS[:8]:
+                    for d in V3:
+                        yield fn, "fo(%s, %s, %s)" % (a, c, d), "om:" + m
+    for k in RANKS[:5]:
+        fn = "function fo(p) return undefined is begin return p@%s; end;" % k
+        for a in V1:
+            yield fn, "fo(%s)" % a, "orank"
+
+
+def gen_opaque(tier):
+    def gen():
+        n = 0
+        for fn, call, tag in opaque_cases(tier):
+            ops = [op_ctx(), op_run(PRELUDE)] + [op_setvar(k, v) for k, v in SETVARS]
+            ops += [op_run(fn), op_run("x = %s;" % call), op_run("print %s;" % call), op_run("y = %s; print typeof(y); z = y; print z;" % call, route="capi")]
+            yield Case("o%d" % n, ops, {"kind": "vocab", "tag": tag, "e": call, "fn": fn})
+            n += 1
+    return gen
+
+
 def gen_vocab(tier):
     def gen():
         return stmt_cases("v", vocab_exprs(tier))
@@ -491,7 +563,7 @@ def run(tier):
     deadline = t0 + (3000 if tier == "thorough" else 420)
     total = Result()
     for name, g in (("bytes", gen_bytes(tier)), ("tokens", gen_tokens(tier)), ("deviations", gen_deviations(tier)), ("vocabulary", gen_vocab(tier)),
-                    ("structure", gen_structure(tier))):
+                    ("opaque", gen_opaque(tier)), ("structure", gen_structure(tier))):
         total.merge(explore("%s-%s-%s" % (PROP, tier, name), g, check, chunk=400, deadline=deadline))
     total.merge(cli_pass(CLI_REPS, tier, t0))
     total.merge(stdin_pass(tier))
@@ -499,7 +571,8 @@ def run(tier):
             "over representative tokens in a context with a variable, table, tuple and function; (3) every truncation, token deletion, adjacent token "
             "swap, token duplication and single-byte substitution of %d valid seed programs; (4) every builtin, operator, type method and @rank with every "
             "argument tuple over a boundary value alphabet (typical, boundary, typed null, untyped null, literal and variable forms); each through the "
-            "C++ and the C API; (4b) every outer loop form x inner construct locking the same table x mutation of the iterated table x use of the iterator; (5) seeds and crash representatives through the bloc command (file and stdin); (6) scripts reading standard input (readln, read, input) x inputs sized around the internal buffers. Non-trivial: at least one step got past "
+            "C++ and the C API; (4a) the same vocabulary with every operand handed over through an untyped function parameter (only run-time guards apply), "
+            "with tables of every element type added to the alphabet; (4b) every outer loop form x inner construct locking the same table x mutation of the iterated table x use of the iterator; (5) seeds and crash representatives through the bloc command (file and stdin); (6) scripts reading standard input (readln, read, input) x inputs sized around the internal buffers. Non-trivial: at least one step got past "
             "the parser (ran or raised a runtime error)" % len(SEEDS))
     return finish(PROP, tier, total, check, rule, t0,
                   assumptions=["clang 14 ASan+UBSan detect the invalid accesses", "allocation sizes capped at 65536 (out of the property's domain above)",
